@@ -7,10 +7,19 @@ Regenerates, from the source text of bitvec.py:
     `g_<method>_<k> (free names, sorted) : bool`;
   * the integer assignments listed in EXPRS (`bl`, `byte_length`, `lo`, `hi`) as
     `e_<method>_<name> (free names, sorted) : Z`.
+  * every concrete-path return `return HalmosBitVec(<int arithmetic>, size=...)` of the methods
+    listed in RETS, in source order, as three definitions over the sorted free names:
+      `r_<method>_<k>  : Z`       the value (Python int semantics: `//`, `%` floor, `>>` = py_shr,
+                                  `pow(a, b, m)` = py_pow3, `~a` = -a - 1),
+      `rd_<method>_<k> : list Z`  the right operands of every `//` and `%` (Python raises
+                                  ZeroDivisionError when one of them is 0),
+      `rw_<method>_<k> : Z`       the work measure: bits of the largest integer CPython
+                                  materialises while evaluating it (rules in Model/PyInt.v).
 Model/BitVecModel.v calls these definitions, so a boundary change in the source
-(`>= 31` -> `> 31`, `rhs == 1` -> `rhs == 2`, `lo + 7` -> `lo + 8`, ...) changes the model the
-theorems are proved about.  Fail-closed: the number of guards per method and their free
-names must be exactly the expected ones.
+(`>= 31` -> `> 31`, `rhs == 1` -> `rhs == 2`, `lo + 7` -> `lo + 8`, `pow(a, b, m)` -> `a ** b`,
+a dropped `== 0` guard in front of a `%`, swapped operands, ...) changes the model the
+theorems are proved about.  Fail-closed: the number of guards / returns per method and their
+free names must be exactly the expected ones.
 """
 import ast
 
@@ -39,6 +48,26 @@ METHODS = {
     "ule": [("other_value", "self_value")],
     "uge": [("other_value", "self_value")],
     "byte": [("byte_length", "idx")],
+    "addmod": [("modulus_value",)],
+    "mulmod": [("modulus_value",)],
+}
+# method -> expected concrete-path returns `return HalmosBitVec(<int arithmetic>, size=...)`, in
+# source order, each the sorted tuple of its free names
+RETS = {
+    "add": [("other__value", "self__value")],
+    "sub": [("other__value", "self__value")],
+    "mul": [("lhs", "rhs"), ("lhs", "rhs"), ("lhs", "rhs")],
+    "div": [("lhs", "rhs")],
+    "mod": [("lhs", "rhs")],
+    "exp": [("lhs", "rhs", "size")],
+    "addmod": [("modulus_value", "other_value", "self_value")],
+    "mulmod": [("modulus_value", "other_value", "self_value")],
+    "lshl": [("self__value", "shift_amount")],
+    "lshr": [("self_value", "shift_amount")],
+    "bitwise_not": [("self__size", "self__value")],
+    "bitwise_and": [("other__value", "self__value")],
+    "bitwise_or": [("other__value", "self__value")],
+    "bitwise_xor": [("other__value", "self__value")],
 }
 EXPRS = {
     "signextend": {"bl": ("size",)},
@@ -82,12 +111,27 @@ def _simple(node):
     return True
 
 
+SANITY = {"addmod": 2, "mulmod": 2}   # expected number of `if r.size != newsize: raise` checks
+
+
 def _guards(fn):
     out = []
+    sanity = []
 
     class V(ast.NodeVisitor):
         def visit_Assert(self, node):  # asserts are not branches
             pass
+
+        def visit_If(self, node):
+            # `if r.size != newsize: raise ValueError(r)`: internal size sanity checks of addmod /
+            # mulmod; sizes are tracked by the model's own n / n2 bookkeeping (bv_resize)
+            if (len(node.body) == 1 and isinstance(node.body[0], ast.Raise) and not node.orelse
+                    and isinstance(node.test, ast.Compare) and len(node.test.ops) == 1
+                    and isinstance(node.test.ops[0], ast.NotEq)
+                    and ast.unparse(node.test).endswith(".size != newsize")):
+                sanity.append(ast.unparse(node.test))
+                return
+            self.generic_visit(node)
 
         def visit_Compare(self, node):
             if all(isinstance(o, (ast.Is, ast.IsNot)) for o in node.ops):
@@ -99,7 +143,95 @@ def _guards(fn):
             out.append(node)
 
     V().visit(fn)
+    if len(sanity) != SANITY.get(fn.name, 0):
+        raise TranslateError(f"{fn.name}: expected {SANITY.get(fn.name, 0)} size sanity checks, found {sanity}")
     return out
+
+
+def _arith(node):
+    """int arithmetic only: names, attributes of names, int literals, binary / unary arithmetic,
+    pow(a, b[, m])"""
+    for n in ast.walk(node):
+        if isinstance(n, ast.Call):
+            if not (isinstance(n.func, ast.Name) and n.func.id == "pow" and len(n.args) in (2, 3) and not n.keywords):
+                return False
+        elif isinstance(n, ast.Constant):
+            if isinstance(n.value, bool) or not isinstance(n.value, int):
+                return False
+        elif not isinstance(n, (ast.BinOp, ast.UnaryOp, ast.Name, ast.Attribute, ast.Load, ast.operator, ast.unaryop)):
+            return False
+    return True
+
+
+def _returns(fn):
+    """the `return HalmosBitVec(<E>, size=...)` statements whose <E> is an arithmetic expression
+    with at least one operator, in source order"""
+    out = []
+    for node in ast.walk(fn):
+        if not isinstance(node, ast.Return) or not isinstance(node.value, ast.Call):
+            continue
+        c = node.value
+        if not (isinstance(c.func, ast.Name) and c.func.id == "HalmosBitVec" and len(c.args) == 1):
+            continue
+        e = c.args[0]
+        if isinstance(e, (ast.BinOp, ast.UnaryOp, ast.Call)) and _arith(e):
+            out.append(node)
+    return sorted(out, key=lambda n: (n.lineno, n.col_offset))
+
+
+class _Ret:
+    """one arithmetic expression -> (value, bits) Gallina texts; collects the divisors and the bits
+    of every sub-expression"""
+
+    SAME = {ast.FloorDiv: "Z.div", ast.Mod: "Z.modulo", ast.RShift: "py_shr", ast.BitAnd: "Z.land",
+            ast.BitOr: "Z.lor", ast.BitXor: "Z.lxor"}
+
+    def __init__(self):
+        self.divisors = []
+        self.bits = []
+
+    def note(self, v, b):
+        self.bits.append(b)
+        return v, b
+
+    def tr(self, n):
+        if isinstance(n, ast.Constant):
+            v = n.value
+            return self.note(f"({v})" if v < 0 else f"{v}", str(max(1, abs(v).bit_length())))
+        if isinstance(n, ast.Name):
+            return self.note(n.id, f"(py_bits {n.id})")
+        if isinstance(n, ast.UnaryOp):
+            v, b = self.tr(n.operand)
+            if isinstance(n.op, ast.USub):
+                return self.note(f"(Z.opp {v})", b)
+            if isinstance(n.op, ast.Invert):   # ~a == -a - 1
+                return self.note(f"(Z.sub (Z.opp {v}) 1)", f"(Z.add {b} 1)")
+            raise TranslateError(f"unsupported unary operator in {ast.unparse(n)!r}")
+        if isinstance(n, ast.Call):
+            args = [self.tr(a) for a in n.args]
+            if len(args) == 3:
+                (a, ba), (e, be), (m, bm) = args
+                return self.note(f"(py_pow3 {a} {e} {m})", f"(Z.max (Z.max {ba} {be}) (Z.mul 2 {bm}))")
+            (a, ba), (e, _) = args
+            return self.note(f"(Z.pow {a} {e})", f"(Z.mul {ba} (Z.max 1 {e}))")
+        if isinstance(n, ast.BinOp):
+            a, ba = self.tr(n.left)
+            c, bc = self.tr(n.right)
+            op = type(n.op)
+            if op in (ast.Add, ast.Sub):
+                f = "Z.add" if op is ast.Add else "Z.sub"
+                return self.note(f"({f} {a} {c})", f"(Z.add (Z.max {ba} {bc}) 1)")
+            if op is ast.Mult:
+                return self.note(f"(Z.mul {a} {c})", f"(Z.add {ba} {bc})")
+            if op in (ast.FloorDiv, ast.Mod):
+                self.divisors.append(c)
+            if op in self.SAME:
+                return self.note(f"({self.SAME[op]} {a} {c})", f"(Z.max {ba} {bc})")
+            if op is ast.LShift:
+                return self.note(f"(Z.shiftl {a} {c})", f"(Z.add {ba} (Z.max 0 {c}))")
+            if op is ast.Pow:
+                return self.note(f"(Z.pow {a} {c})", f"(Z.mul {ba} (Z.max 1 {c}))")
+        raise TranslateError(f"unsupported arithmetic shape {ast.unparse(n)!r}")
 
 
 def _emit(name, params, body, ty):
@@ -111,11 +243,13 @@ def translate(src_text):
     tree = ast.parse(src_text)
     lines = [
         "(* GENERATED by translate/t_purefuns.py from src/halmos/bitvec.py -- do not edit *)",
-        "From Coq Require Import ZArith Bool.",
+        "From Coq Require Import ZArith Bool List.",
+        "From HV Require Import Model.PyInt.",
+        "Import ListNotations.",
         "Open Scope Z_scope.",
         "",
     ]
-    info = {"guards": {}, "exprs": {}}
+    info = {"guards": {}, "exprs": {}, "rets": {}}
 
     # ---- is_power_of_two
     fn = find_function(tree, "is_power_of_two")
@@ -172,6 +306,30 @@ def translate(src_text):
             lines.append(f"(* {m}: `{ast.unparse(asg[0])}` *)")
             lines.append(_emit(f"e_{m}_{name}", sorted(params), e.as_Z(), "Z"))
             info["exprs"][f"{m}.{name}"] = ast.unparse(asg[0].value)
+        lines.append("")
+
+    # ---- concrete-path return expressions
+    for m, expected in RETS.items():
+        fn = find_function(tree, m, cls="HalmosBitVec")
+        rs = _returns(fn)
+        got, texts = [], []
+        for k, r in enumerate(rs, 1):
+            e = _Flatten().visit(ast.parse(ast.unparse(r.value.args[0]), mode="eval").body)
+            params = tuple(p for p in _free_names(e) if p != "pow")
+            got.append(params)
+            t = _Ret()
+            v, _ = t.tr(e)
+            w = t.bits[-1]
+            for b in reversed(t.bits[:-1]):
+                w = f"(Z.max {b} {w})"
+            lines.append(f"(* {m}: `{ast.unparse(r)}` *)")
+            lines.append(_emit(f"r_{m}_{k}", params, v, "Z"))
+            lines.append(_emit(f"rd_{m}_{k}", params, "[" + "; ".join(t.divisors) + "]", "list Z"))
+            lines.append(_emit(f"rw_{m}_{k}", params, w, "Z"))
+            texts.append(ast.unparse(r.value.args[0]))
+        if got != [tuple(x) for x in expected]:
+            raise TranslateError(f"{m}: expected concrete-path returns over {expected}, found {got} ({texts})")
+        info["rets"][m] = texts
         lines.append("")
     return "\n".join(lines), info
 
